@@ -347,7 +347,7 @@ impl Property for C11 {
     }
 
     fn budget(tier: Tier) -> u64 {
-        tier.pick(12_000, 80_000)
+        tier.pick(12_000, 70_000)
     }
 
     fn rule() -> &'static str {
